@@ -105,6 +105,136 @@ def runB (k : Nat) (l : Loop α) : List (LAct α) → Option (Nat × Loop α)
 
 end Loop
 
+/-! ## paths with delay
+
+The loop above abstracts the delay of a path as the interleaving of deliveries with clock ticks.  For termination the
+delays must be finite: `TLoop` attaches to every packet in flight the instant by which the path delivers it (chosen
+freely when the packet enters the path, not before the current instant).  Deliveries may happen at any moment, in
+order; the clock cannot pass the delivery instant of a packet in flight, nor a due timer, and it advances from event
+instant to event instant (a timer wake-up or a delivery instant), as a discrete-event kernel does.  Retransmission
+timers may therefore expire while packets are in flight (round-trip time above the RTO). -/
+
+/-- the closed loop over timed paths: `dT`, `aT` are the delivery instants of the packets in `l.data`, `l.acks` -/
+structure TLoop (α : Type) where
+  l : Loop α
+  dT : List α
+  aT : List α
+
+namespace TLoop
+variable {α : Type} [NumX α]
+
+def init (s : Sender α) : TLoop α := { l := Loop.init s, dT := [], aT := [] }
+
+/-- `t` is an event instant: a live timer wakes at `t`, or a packet in flight is due for delivery at `t` -/
+def EventAt (L : TLoop α) (t : α) : Prop :=
+  (∃ kv ∈ L.l.snd.timers, kv.2.live = true ∧ Num.eqb kv.2.wake t = true) ∨
+  (∃ d ∈ L.dT, Num.eqb d t = true) ∨ (∃ d ∈ L.aT, Num.eqb d t = true)
+
+/-- one loss-free step over timed paths.  `ts`/`t`: the delivery instants the paths assign to the packets that enter
+them in this step (arbitrary, not in the past). -/
+inductive TStep : TLoop α → TLoop α → Prop
+  /-- a burst of the sender other than the clock: resumption of `run`, token hand-off, expiry of a due timer -/
+  | burst {L : TLoop α} {l' : Loop α} (a : Act α) (ts : List α) :
+      (∀ t, a ≠ .tick t) → L.l.step (.own a) = some l' → L.dT.length + ts.length = l'.data.length →
+      (∀ t ∈ ts, l'.snd.now ≤ t) → TStep L { l := l', dT := L.dT ++ ts, aT := L.aT }
+  /-- the clock advances to the next event instant, not beyond the delivery instant of any packet in flight -/
+  | tick {L : TLoop α} {l' : Loop α} (t : α) :
+      L.l.step (.own (.tick t)) = some l' → L.l.snd.now < t → (∀ d ∈ L.dT, t ≤ d) → (∀ d ∈ L.aT, t ≤ d) →
+      L.EventAt t → TStep L { l := l', dT := L.dT, aT := L.aT }
+  /-- the head of the data path reaches the sink; the ACK enters the ACK path -/
+  | deliver {L : TLoop α} {l' : Loop α} (t : α) :
+      L.l.step .deliver = some l' → L.l.snd.now ≤ t → TStep L { l := l', dT := L.dT.tail, aT := L.aT ++ [t] }
+  /-- the head of the ACK path reaches the sender; retransmissions it causes enter the data path -/
+  | ackArrive {L : TLoop α} {l' : Loop α} (ts : List α) :
+      L.l.step .ackArrive = some l' → L.dT.length + ts.length = l'.data.length →
+      (∀ t ∈ ts, l'.snd.now ≤ t) → TStep L { l := l', dT := L.dT ++ ts, aT := L.aT.tail }
+
+/-- a run over timed paths with a loss budget -/
+inductive TBStep : Nat × TLoop α → Nat × TLoop α → Prop
+  | step {k : Nat} {L L' : TLoop α} : TStep L L' → TBStep (k, L) (k, L')
+  | dropData {k : Nat} {L : TLoop α} {l' : Loop α} (i : Nat) : L.l.step (.dropData i) = some l' →
+      TBStep (k + 1, L) (k, { l := l', dT := L.dT.eraseIdx i, aT := L.aT })
+  | dropAck {k : Nat} {L : TLoop α} {l' : Loop α} (i : Nat) : L.l.step (.dropAck i) = some l' →
+      TBStep (k + 1, L) (k, { l := l', dT := L.dT, aT := L.aT.eraseIdx i })
+
+end TLoop
+
+/-- a scripted step over timed paths: the action and the delivery instants the paths assign -/
+inductive TAct (α : Type) where
+  | burst (a : Act α) (ts : List α)
+  | tick (t : α)
+  | deliver (t : α)
+  | ackArrive (ts : List α)
+  | dropData (i : Nat)
+  | dropAck (i : Nat)
+
+namespace TLoop
+variable {α : Type} [NumX α]
+
+def isTick : Act α → Bool
+  | .tick _ => true
+  | _ => false
+
+/-- `EventAt` as a Boolean test -/
+def eventAtB (L : TLoop α) (t : α) : Bool :=
+  (L.l.snd.timers.any fun kv => kv.2.live && Num.eqb kv.2.wake t) || (L.dT.any fun d => Num.eqb d t) ||
+    (L.aT.any fun d => Num.eqb d t)
+
+/-- one scripted step as a `TBStep` with budget `k`, `none` if it is not one -/
+def stepT (k : Nat) (L : TLoop α) : TAct α → Option (Nat × TLoop α)
+  | .burst a ts =>
+    if isTick a then none
+    else
+      match L.l.step (.own a) with
+      | none => none
+      | some l' =>
+        if L.dT.length + ts.length = l'.data.length ∧ (ts.all fun t => decide (l'.snd.now ≤ t)) = true then
+          some (k, { l := l', dT := L.dT ++ ts, aT := L.aT })
+        else none
+  | .tick t =>
+    match L.l.step (.own (.tick t)) with
+    | none => none
+    | some l' =>
+      if (decide (L.l.snd.now < t) && (L.dT.all fun d => decide (t ≤ d)) && (L.aT.all fun d => decide (t ≤ d)) &&
+          L.eventAtB t) = true then
+        some (k, { l := l', dT := L.dT, aT := L.aT })
+      else none
+  | .deliver t =>
+    match L.l.step .deliver with
+    | none => none
+    | some l' => if L.l.snd.now ≤ t then some (k, { l := l', dT := L.dT.tail, aT := L.aT ++ [t] }) else none
+  | .ackArrive ts =>
+    match L.l.step .ackArrive with
+    | none => none
+    | some l' =>
+      if L.dT.length + ts.length = l'.data.length ∧ (ts.all fun t => decide (l'.snd.now ≤ t)) = true then
+        some (k, { l := l', dT := L.dT ++ ts, aT := L.aT.tail })
+      else none
+  | .dropData i =>
+    match L.l.step (.dropData i) with
+    | none => none
+    | some l' =>
+      match k with
+      | 0 => none
+      | k + 1 => some (k, { l := l', dT := L.dT.eraseIdx i, aT := L.aT })
+  | .dropAck i =>
+    match L.l.step (.dropAck i) with
+    | none => none
+    | some l' =>
+      match k with
+      | 0 => none
+      | k + 1 => some (k, { l := l', dT := L.dT, aT := L.aT.eraseIdx i })
+
+/-- run a script over timed paths with loss budget `k` -/
+def runT (k : Nat) (L : TLoop α) : List (TAct α) → Option (Nat × TLoop α)
+  | [] => some (k, L)
+  | a :: rest =>
+    match stepT k L a with
+    | some y => runT y.1 y.2 rest
+    | none => none
+
+end TLoop
+
 /-- an action that loses nothing -/
 def LAct.noDrop {α : Type} : LAct α → Bool
   | .dropData _ => false
